@@ -15,6 +15,22 @@ REPO = os.path.abspath(os.environ.get("VERIF_REPO", "/repo"))
 CACHE = os.path.join(ROOT, ".cache") if REPO == "/repo" else os.path.join(ROOT, ".cache", "alt-" + hashlib.sha1(REPO.encode()).hexdigest()[:10])
 LEANCACHE = os.path.join(ROOT, ".cache")
 LEAN = os.path.join(ROOT, "lean")
+if REPO != "/repo":
+    # A scratch tree also gets a PRIVATE copy of the Lean project (sources + build products), so that the Gen files
+    # regenerated from it and the rebuilt drivers never disturb checks of /repo (or of other scratch trees) running at
+    # the same time. Copied once under the main project's lock (a consistent snapshot), sources refreshed afterwards.
+    import fcntl as _f
+    os.makedirs(CACHE, exist_ok=True)
+    _alt = os.path.join(CACHE, "lean")
+    with open(os.path.join(LEANCACHE, "lock-lean"), "w") as _lk:
+        _f.flock(_lk, _f.LOCK_EX)
+        if not os.path.isdir(os.path.join(_alt, ".lake")):
+            subprocess.run(["rsync", "-a", "--delete", LEAN + "/", _alt + "/"], check=False)
+        else:
+            subprocess.run(["rsync", "-a", "--exclude", ".lake", "--exclude", "XzVerif/Gen", LEAN + "/", _alt + "/"], check=False)
+        _f.flock(_lk, _f.LOCK_UN)
+    LEAN = _alt
+    LEANCACHE = CACHE
 GUARD = "TUKAANI_PROJECT_XZ_VERIF"
 NCPU = os.cpu_count() or 4
 
@@ -25,18 +41,27 @@ os.makedirs(CACHE, exist_ok=True)
 
 
 def sh(cmd, cwd=None, timeout=None, env=None, inp=None):
-    """Run a command, return (rc, stdout+stderr)."""
+    """Run a command, return (rc, stdout+stderr).  The command gets its own process group; on timeout the whole group
+    is killed (a timed-out `lake build` must not leave its `lean` children holding the project lock)."""
     e = dict(os.environ)
     if env:
         e.update(env)
+    p = subprocess.Popen(cmd, cwd=cwd, env=e, stdin=subprocess.PIPE if inp is not None else subprocess.DEVNULL,
+                         stdout=subprocess.PIPE, stderr=subprocess.STDOUT, shell=isinstance(cmd, str),
+                         start_new_session=True)
     try:
-        p = subprocess.run(cmd, cwd=cwd, timeout=timeout, env=e, input=inp,
-                           stdout=subprocess.PIPE, stderr=subprocess.STDOUT,
-                           shell=isinstance(cmd, str))
-        return p.returncode, p.stdout.decode("utf-8", "replace")
-    except subprocess.TimeoutExpired as ex:
-        out = ex.stdout.decode("utf-8", "replace") if ex.stdout else ""
-        return 124, out + "\n[timeout]"
+        out, _ = p.communicate(inp, timeout=timeout)
+        return p.returncode, out.decode("utf-8", "replace")
+    except subprocess.TimeoutExpired:
+        try:
+            os.killpg(p.pid, 9)
+        except OSError:
+            pass
+        try:
+            out, _ = p.communicate(timeout=10)
+        except Exception:
+            out = b""
+        return 124, (out or b"").decode("utf-8", "replace") + "\n[timeout]"
 
 
 class Lock:
@@ -139,7 +164,7 @@ def theorems_in(path):
     return names
 
 
-def lake(args, timeout=3000):
+def lake(args, timeout=1800):
     with Lock("lean"):
         return sh(["lake"] + args, cwd=LEAN, timeout=timeout)
 
